@@ -1,0 +1,27 @@
+//go:build verif
+
+package types
+
+// Read-only exports for the verification harness in /verif (tag verif only).
+
+// VerifTableLens returns the lengths of the base-type tables.
+func VerifTableLens() map[string]int {
+	return map[string]int{
+		"bsize":     len(bsize),
+		"bname":     len(bname),
+		"binteger":  len(binteger),
+		"bsigned":   len(bsigned),
+		"bgotype":   len(bgotype),
+		"binvalid":  len(binvalid),
+		"goinvalid": len(goinvalid),
+		"kname":     len(kname),
+		"fgotype":   len(fgotype),
+		"fgoinvalid": len(fgoinvalid),
+	}
+}
+
+// VerifIndex calls Base.index.
+func VerifIndex(b Base) byte { return b.index() }
+
+// VerifMultibyte calls Base.multibyte.
+func VerifMultibyte(b Base) bool { return b.multibyte() }
